@@ -20,6 +20,20 @@ def check_steps(sc, steps, out=print):
         P = {k: st[k] for k in ("dt", "beta", "gamma", "alpha") if k in st}
         prev, new = rec["prev"], rec["new"]
         tag = "step %d %s %s" % (n, algo, P)
+        # the scheme in force is the one just selected, with exactly the selected numbers (a change of 1 ulp counts)
+        if "stored" in rec:
+            if rec.get("algo_now") != algo:
+                bad.append("%s: params: after selecting %s the simulation's algorithm is %s" % (tag, algo, rec.get("algo_now")))
+            elif isinstance(rec["stored"], str):
+                bad.append("%s: params: %s" % (tag, rec["stored"]))
+            else:
+                Pe = O.effective_params(algo, P)
+                want = [Pe["dt"], Pe["alpha"]] if algo == "parabolic" else [Pe["dt"], Pe["beta"], Pe["gamma"], Pe["alpha"]]
+                names = ["dt", "alpha"] if algo == "parabolic" else ["dt", "beta", "gamma", "alpha"]
+                for nm, w, g in zip(names, want, rec["stored"]):
+                    exact = not (algo == "hht_newmark" and nm in ("beta", "gamma"))
+                    if (g != w) if exact else (abs(g - w) > 1e-14 * abs(w)):
+                        bad.append("%s: params: selected %s = %r but the scheme keeps %r (difference %.3e)" % (tag, nm, w, g, g - w))
         for name, r, sc_ in O.update_residuals(algo, P, prev, new):
             m = max(abs(x) for x in r)
             if m > TOL * sc_:
@@ -110,20 +124,23 @@ def range_case(sc):
     return 1 if accepted != sc["expect_accept"] else 0
 
 
-def compare_scaled(sc, base_steps, twin_steps, k):
-    """the step is linear in (u_n, v_n, a_n, loads, prescribed values): the scenario with all of them multiplied by
-    s = 2^k must return exactly s times the result (power-of-two scaling commutes with every float operation)."""
-    s = 2.0 ** k
+def compare_scaled(sc, base_steps, twin_steps, k, kT=0, what=None):
+    """change of units: values x 2^k, time x 2^kT (and lengths / moduli with the density adjusted, which leave u, v, a
+    unchanged).  The twin must return u x 2^k, v x 2^(k-kT), a x 2^(k-2kT) exactly (power-of-two scaling commutes with
+    every float operation)."""
+    fac = {"u": 2.0 ** k, "v": 2.0 ** (k - kT), "a": 2.0 ** (k - 2 * kT)}
     bad = []
     for n, (b, t) in enumerate(zip(base_steps, twin_steps)):
         for f in ("u", "v", "a"):
+            s = fac[f]
             ref = [s * x for x in b["new"][f]]
             sc_ = O.scale(ref)
             m = max(abs(p - q) for p, q in zip(t["new"][f], ref))
             if m > 1e-12 * sc_:
                 i = max(range(len(ref)), key=lambda j: abs(t["new"][f][j] - ref[j]))
-                bad.append("step %d %s: scaling: with states, loads and prescribed values times 2^%d the returned %s[%d] = %.12e but 2^%d x (unscaled result) = %.12e "
-                           "(homogeneity of the step; rel. diff %.3e)" % (n, sc["steps"][n]["algo"], k, f, i, t["new"][f][i], k, ref[i], m / sc_ if sc_ else float("inf")))
+                bad.append("step %d %s: scaling: twin in other units (%s) returns %s[%d] = %.12e but %g x (base result) = %.12e "
+                           "(the step is homogeneous under a change of units; rel. diff %.3e)" % (n, sc["steps"][n]["algo"], what or ("values x 2^%d" % k), f, i,
+                                                                                                 t["new"][f][i], s, ref[i], m / sc_ if sc_ else float("inf")))
                 break
     return bad
 
@@ -136,7 +153,7 @@ def main(sc):
     tw = sc.get("scale_twin")
     if tw:
         base_steps = c05_run.run_scenario(tw["base"])
-        more = compare_scaled(sc, base_steps, steps, tw["k"])
+        more = compare_scaled(sc, base_steps, steps, tw["k"], tw.get("kT", 0), tw.get("what"))
         for b in more[:6]:
             print(b)
         bad += more
